@@ -113,13 +113,27 @@ class ClassRegistry:
         self.by_id = {}
         self.native = {}
         self._next = 1
+        self._next_exc = 0
 
     def cid(self, cls):
         key = cls.key if isinstance(cls, ClassInfo) else ("ext:" + cls.dotted if isinstance(cls, ExternalRef) else "ext:" + cls)
         if key not in self.by_key:
-            self.by_key[key] = self._next
-            self.by_id[self._next] = cls if not isinstance(cls, str) else ExternalRef(cls)
-            self._next += 1
+            # exception classes get ids >= 1000, every other class an id < 1000: the class of an exception
+            # object (a symbolic id >= 1000) can never coincide with a non-exception class
+            is_exc = False
+            if not isinstance(cls, str):
+                try:
+                    is_exc = self.is_exception_class(cls)
+                except Exception:
+                    is_exc = False
+            if is_exc:
+                n = 1000 + self._next_exc
+                self._next_exc += 1
+            else:
+                n = self._next
+                self._next += 1
+            self.by_key[key] = n
+            self.by_id[n] = cls if not isinstance(cls, str) else ExternalRef(cls)
         return self.by_key[key]
 
     def native_of(self, cls):
@@ -413,8 +427,11 @@ class Ctx:
             return SV(Z.mk_flt(repr(x)), TNum(only="float"))
         if isinstance(x, str):
             return SV(Z.mk_str(x), TStr())
-        if isinstance(x, (Closure, BoundMethod, ClassInfo, ExternalRef, ModuleInfo, Builtin, VTuple, VList, VDict, VSet, PartialFn, AbstractMethod, FunctionInfo, TypeOf, SeqMethod)):
+        if type(x).__name__ in ("Coro", "CtxMgr") or isinstance(x, (Closure, BoundMethod, ClassInfo, ExternalRef, ModuleInfo, Builtin, VTuple, VList, VDict, VSet, PartialFn, AbstractMethod, FunctionInfo, TypeOf, SeqMethod)):
             key = None
+            if isinstance(x, BoundMethod) and isinstance(x.self_val, SV):
+                # a bound method is identified by (function, receiver): two lookups of obj.m denote equal values
+                key = ("bound", x.fn.key, z3.simplify(x.self_val.t).sexpr())
             if isinstance(x, ClassInfo):
                 key = ("class", x.key)
             elif isinstance(x, ExternalRef):
